@@ -97,6 +97,8 @@ type node struct {
 	encWlt  string
 	wltAddr []cipher.Address
 	abandon bool
+	r       *Rng
+	when    uint64
 }
 
 type panicLog struct {
@@ -139,7 +141,7 @@ func (p *panicLog) take(id string) (string, bool) {
 
 const seedPhrase = "chief stadium sniff exhibit ostrich exit fruit noodle good lava coin supply"
 
-func newNode(r *Rng, nBlocks int) (*node, error) {
+func newNode(r *Rng) (*node, error) {
 	w, err := nk.NewWorld(r, "c28")
 	if err != nil {
 		return nil, err
@@ -223,92 +225,14 @@ func newNode(r *Rng, nBlocks int) (*node, error) {
 		left -= coins
 	}
 	outs = append(outs, coin.TransactionOutput{Address: w.Addrs[0], Coins: left, Hours: 1000})
-	when := nk.GenesisTime + 10
-	mine := func(t coin.Transaction) error {
-		if _, _, err := n.v.InjectForeignTransaction(t); err != nil {
-			return fmt.Errorf("inject: %v", err)
-		}
-		sb, err := n.v.VerifCreateBlock(when)
-		if err != nil {
-			return fmt.Errorf("create block: %v", err)
-		}
-		when += 3600 * 24
-		if err := n.v.ExecuteSignedBlock(sb); err != nil {
-			return fmt.Errorf("execute block: %v", err)
-		}
-		w.RecordBlock(sb)
-		n.blocks = append(n.blocks, sb)
-		n.confTx = append(n.confTx, t)
-		for _, in := range t.In {
-			n.spent = append(n.spent, w.Ux[in])
-		}
-		return nil
+	// phase A: the head is the genesis block and the split transaction waits in the pool
+	n.r = r
+	n.when = nk.GenesisTime + 10
+	split := w.BuildTxn([]cipher.SHA256{gen.Hash()}, w.Uniq(outs), nk.TxOpts{})
+	if _, _, err := n.v.InjectForeignTransaction(split); err != nil {
+		return nil, fmt.Errorf("inject split: %v", err)
 	}
-	if err := mine(w.BuildTxn([]cipher.SHA256{gen.Hash()}, w.Uniq(outs), nk.TxOpts{})); err != nil {
-		return nil, err
-	}
-	ownUnspent := func() (coin.UxArray, uint64, error) {
-		head, err := n.v.GetHeadBlock()
-		if err != nil {
-			return nil, 0, err
-		}
-		var all coin.UxArray
-		for h, ux := range w.Ux {
-			if _, ok := w.KeyOf[ux.Body.Address]; !ok {
-				continue
-			}
-			if got, err := n.v.GetUnspentOutputs([]cipher.SHA256{h}); err == nil && len(got) == 1 {
-				all = append(all, ux)
-			}
-		}
-		sort.Slice(all, func(i, j int) bool {
-			return func() bool { a, b := all[i].Hash(), all[j].Hash(); return bytes.Compare(a[:], b[:]) < 0 }()
-		})
-		return all, head.Time(), nil
-	}
-	for b := 2; b <= nBlocks; b++ {
-		us, ht, err := ownUnspent()
-		if err != nil {
-			return nil, err
-		}
-		var pick coin.UxArray
-		for _, ux := range us {
-			if nk.HoursAt(ux, ht) >= 2 && ux.Body.Address != w.Addrs[nk.LockedKey] && len(pick) < 2 {
-				pick = append(pick, ux)
-			}
-		}
-		if len(pick) == 0 {
-			break
-		}
-		if err := mine(w.Spend(pick[:1], ht, nk.SpendOpts{Fee: "min", NOut: 2})); err != nil {
-			return nil, err
-		}
-	}
-	// the pool: one valid unconfirmed transaction
-	us, ht, err := ownUnspent()
-	if err != nil {
-		return nil, err
-	}
-	for _, ux := range us {
-		if nk.HoursAt(ux, ht) >= 2 && ux.Body.Address != w.Addrs[nk.LockedKey] {
-			t := w.Spend(coin.UxArray{ux}, ht, nk.SpendOpts{Fee: "min", NOut: 1})
-			if _, _, err := n.v.InjectForeignTransaction(t); err == nil {
-				n.pooled = append(n.pooled, t)
-				break
-			}
-		}
-	}
-	inPool := map[cipher.SHA256]bool{}
-	for _, t := range n.pooled {
-		for _, in := range t.In {
-			inPool[in] = true
-		}
-	}
-	for _, ux := range us {
-		if !inPool[ux.Hash()] {
-			n.unspent = append(n.unspent, ux)
-		}
-	}
+	n.pooled = []coin.Transaction{split}
 
 	// daemon without networking (its pool runs offline so that strand requests are served)
 	dc := daemon.NewConfig()
@@ -337,6 +261,120 @@ func newNode(r *Rng, nBlocks int) (*node, error) {
 		EnabledAPISets: en, Health: api.HealthConfig{BuildInfo: readable.BuildInfo{Version: "0.27.0"}, DaemonUserAgent: dc.Daemon.UserAgent}}, gw)
 	n.srv = httptest.NewServer(n.panics.wrap(mux))
 	return n, nil
+}
+
+// mine puts t (already in the pool when inject is false) into the next block.
+func (n *node) mine(t coin.Transaction, inject bool) error {
+	w := n.w
+	if inject {
+		if _, _, err := n.v.InjectForeignTransaction(t); err != nil {
+			return fmt.Errorf("inject: %v", err)
+		}
+	}
+	sb, err := n.v.VerifCreateBlock(n.when)
+	if err != nil {
+		return fmt.Errorf("create block: %v", err)
+	}
+	n.when += 3600 * 24
+	if err := n.v.ExecuteSignedBlock(sb); err != nil {
+		return fmt.Errorf("execute block: %v", err)
+	}
+	w.RecordBlock(sb)
+	n.blocks = append(n.blocks, sb)
+	n.confTx = append(n.confTx, t)
+	for _, in := range t.In {
+		n.spent = append(n.spent, w.Ux[in])
+	}
+	return nil
+}
+
+func (n *node) ownUnspent() (coin.UxArray, uint64, error) {
+	w := n.w
+	head, err := n.v.GetHeadBlock()
+	if err != nil {
+		return nil, 0, err
+	}
+	var all coin.UxArray
+	for h, ux := range w.Ux {
+		if _, ok := w.KeyOf[ux.Body.Address]; !ok {
+			continue
+		}
+		if got, err := n.v.GetUnspentOutputs([]cipher.SHA256{h}); err == nil && len(got) == 1 {
+			all = append(all, ux)
+		}
+	}
+	sort.Slice(all, func(i, j int) bool {
+		a, b := all[i].Hash(), all[j].Hash()
+		return bytes.Compare(a[:], b[:]) < 0
+	})
+	return all, head.Time(), nil
+}
+
+// grow is phase B: the pooled split transaction becomes block 1, further
+// blocks spend its outputs, and one valid transaction is left in the pool.
+func (n *node) grow(nBlocks int) error {
+	w := n.w
+	if len(n.pooled) != 1 {
+		return fmt.Errorf("grow: expected the split transaction in the pool")
+	}
+	split := n.pooled[0]
+	n.pooled = nil
+	if err := n.mine(split, false); err != nil {
+		return err
+	}
+	for b := 2; b <= nBlocks; b++ {
+		us, ht, err := n.ownUnspent()
+		if err != nil {
+			return err
+		}
+		var pick coin.UxArray
+		for _, ux := range us {
+			if nk.HoursAt(ux, ht) >= 2 && ux.Body.Address != w.Addrs[nk.LockedKey] && len(pick) < 2 {
+				pick = append(pick, ux)
+			}
+		}
+		if len(pick) == 0 {
+			break
+		}
+		if err := n.mine(w.Spend(pick[:1], ht, nk.SpendOpts{Fee: "min", NOut: 2}), true); err != nil {
+			return err
+		}
+	}
+	us, ht, err := n.ownUnspent()
+	if err != nil {
+		return err
+	}
+	for _, ux := range us {
+		if nk.HoursAt(ux, ht) >= 2 && ux.Body.Address != w.Addrs[nk.LockedKey] {
+			t := w.Spend(coin.UxArray{ux}, ht, nk.SpendOpts{Fee: "min", NOut: 1})
+			if _, _, err := n.v.InjectForeignTransaction(t); err == nil {
+				n.pooled = append(n.pooled, t)
+				break
+			}
+		}
+	}
+	inPool := map[cipher.SHA256]bool{}
+	for _, t := range n.pooled {
+		for _, in := range t.In {
+			inPool[in] = true
+		}
+	}
+	n.unspent = nil
+	for _, ux := range us {
+		if !inPool[ux.Hash()] {
+			n.unspent = append(n.unspent, ux)
+		}
+	}
+	return nil
+}
+
+// chainTxns returns every transaction of the chain, the genesis transaction included.
+func (n *node) chainTxns() []coin.Transaction {
+	var out []coin.Transaction
+	for _, b := range n.blocks {
+		out = append(out, b.Body.Transactions...)
+	}
+	return out
 }
 
 func (n *node) close() {
@@ -531,9 +569,13 @@ func (g *gen) addrList() string {
 func (g *gen) hash() string {
 	n := g.n
 	var good []string
-	for _, t := range n.confTx {
+	for _, t := range n.chainTxns() {
 		good = append(good, t.Hash().Hex())
 	}
+	for h := range n.w.Ux {
+		good = append(good, h.Hex())
+	}
+	sort.Strings(good)
 	for _, t := range n.pooled {
 		good = append(good, t.Hash().Hex())
 	}
@@ -621,8 +663,9 @@ func (g *gen) rawTxn() string {
 			ux := n.unspent[g.r.Intn(len(n.unspent))]
 			return enc(n.w.Spend(coin.UxArray{ux}, ht, nk.SpendOpts{Fee: "min", NOut: 1 + g.r.Intn(2)}))
 		}
-	case 1: // a confirmed transaction
-		return enc(n.confTx[g.r.Intn(len(n.confTx))])
+	case 1: // a confirmed transaction (the genesis transaction included)
+		ct := n.chainTxns()
+		return enc(ct[g.r.Intn(len(ct))])
 	case 2: // the pooled transaction
 		if len(n.pooled) > 0 {
 			return enc(n.pooled[0])
@@ -1070,7 +1113,7 @@ func run(args []string) error {
 	budget := f.Budget(2000, 40000)
 	timeout := 15 * time.Second
 
-	n, err := newNode(r, 6)
+	n, err := newNode(r)
 	if err != nil {
 		return fmt.Errorf("node: %v", err)
 	}
@@ -1171,6 +1214,185 @@ func run(args []string) error {
 		return ob
 	}
 
+	routeOf := func(p string) (route, bool) {
+		for _, rt := range routes {
+			if rt.Path == p {
+				return rt, true
+			}
+		}
+		return route{}, false
+	}
+
+	// 0. systematic sweep: every id that exists on the node's real chain (genesis
+	// txid / block hash / seq 0 / genesis uxout, the head's, the txids and uxids of
+	// every block, the pool's, every address) as parameter of every endpoint that
+	// takes such an id, in every mode (verbose, encoded, confirmed, ...).
+	sweep := func(phase string) {
+		get := func(path string, kv ...string) {
+			rt, ok := routeOf(path)
+			if !ok {
+				return
+			}
+			v := url.Values{}
+			for i := 0; i+1 < len(kv); i += 2 {
+				v.Set(kv[i], kv[i+1])
+			}
+			exec("requests", rt, reqSpec{method: "GET", path: path, query: v, note: "chain id sweep (" + phase + ")"})
+		}
+		postJSON := func(path string, body map[string]interface{}) {
+			rt, ok := routeOf(path)
+			if !ok {
+				return
+			}
+			b, _ := json.Marshal(body)
+			exec("requests", rt, reqSpec{method: "POST", path: path, ctype: "application/json", body: string(b), note: "chain id sweep (" + phase + ")"})
+		}
+		modes := func(f func(verbose, other string)) {
+			for _, vb := range []string{"", "0", "1"} {
+				for _, ot := range []string{"", "0", "1"} {
+					f(vb, ot)
+				}
+			}
+		}
+		type txRef struct {
+			t    coin.Transaction
+			kind string
+		}
+		var txs []txRef
+		for _, t := range n.chainTxns() {
+			txs = append(txs, txRef{t, "confirmed"})
+		}
+		for _, t := range n.pooled {
+			txs = append(txs, txRef{t, "pool"})
+		}
+		addrSet := map[string]bool{}
+		var uxids []string
+		for _, b := range n.blocks {
+			for _, t := range b.Body.Transactions {
+				for _, ux := range coin.CreateUnspents(b.Head, t) {
+					uxids = append(uxids, ux.Hash().Hex())
+					addrSet[ux.Body.Address.String()] = true
+				}
+			}
+		}
+		for _, t := range n.pooled {
+			for _, o := range t.Out {
+				addrSet[o.Address.String()] = true
+			}
+			if hb, err := n.v.GetHeadBlock(); err == nil && hb != nil {
+				for _, ux := range coin.CreateUnspents(hb.Head, t) { // predicted outputs of the pool
+					uxids = append(uxids, ux.Hash().Hex())
+				}
+			}
+		}
+		var addrs []string
+		for a := range addrSet {
+			addrs = append(addrs, a)
+		}
+		sort.Strings(addrs)
+		// thin the middle of long lists out in the quick tier; first (genesis) and last (head) always stay
+		thin := func(xs []string, keep int) []string {
+			if thorough || len(xs) <= keep {
+				return xs
+			}
+			out := append([]string{}, xs[:keep/2]...)
+			return append(out, xs[len(xs)-keep/2:]...)
+		}
+		for _, x := range txs {
+			id := x.t.Hash().Hex()
+			modes(func(vb, enc string) {
+				kv := []string{"txid", id}
+				if vb != "" {
+					kv = append(kv, "verbose", vb)
+				}
+				if enc != "" {
+					kv = append(kv, "encoded", enc)
+				}
+				get("/api/v1/transaction", kv...)
+			})
+			get("/api/v1/rawtx", "txid", id)
+			get("/api/v2/data", "type", "txid", "key", id)
+			if b, err := x.t.Serialize(); err == nil {
+				for _, un := range []bool{false, true} {
+					postJSON("/api/v2/transaction/verify", map[string]interface{}{"encoded_transaction": hex.EncodeToString(b), "unsigned": un})
+				}
+				postJSON("/api/v1/injectTransaction", map[string]interface{}{"rawtx": hex.EncodeToString(b), "no_broadcast": true})
+			}
+		}
+		for _, u := range thin(uxids, 12) {
+			get("/api/v1/uxout", "uxid", u)
+			get("/api/v1/outputs", "hashes", u)
+		}
+		for i, b := range n.blocks {
+			for _, vb := range []string{"", "0", "1"} {
+				kvh := []string{"hash", b.HashHeader().Hex()}
+				kvs := []string{"seq", fmt.Sprint(i)}
+				kvr := []string{"start", fmt.Sprint(i), "end", fmt.Sprint(i)}
+				kvq := []string{"seqs", fmt.Sprint(i)}
+				if vb != "" {
+					kvh, kvs, kvr, kvq = append(kvh, "verbose", vb), append(kvs, "verbose", vb), append(kvr, "verbose", vb), append(kvq, "verbose", vb)
+				}
+				get("/api/v1/block", kvh...)
+				get("/api/v1/block", kvs...)
+				get("/api/v1/blocks", kvr...)
+				get("/api/v1/blocks", kvq...)
+			}
+		}
+		for _, vb := range []string{"", "0", "1"} {
+			kv := []string{}
+			if vb != "" {
+				kv = []string{"verbose", vb}
+			}
+			get("/api/v1/blocks", append([]string{"start", "0", "end", fmt.Sprint(len(n.blocks) + 1)}, kv...)...)
+			get("/api/v1/last_blocks", append([]string{"num", "1"}, kv...)...)
+			get("/api/v1/last_blocks", append([]string{"num", fmt.Sprint(len(n.blocks) + 1)}, kv...)...)
+			get("/api/v1/pendingTxs", kv...)
+			get("/api/v1/transactions", kv...)
+			get("/api/v2/transactions", kv...)
+		}
+		all := strings.Join(addrs, ",")
+		for _, a := range append(thin(addrs, 6), all) {
+			modes(func(vb, cf string) {
+				kv := []string{"addrs", a}
+				if vb != "" {
+					kv = append(kv, "verbose", vb)
+				}
+				if cf != "" {
+					kv = append(kv, "confirmed", cf)
+				}
+				get("/api/v1/transactions", kv...)
+				get("/api/v2/transactions", kv...)
+				get("/api/v2/transactions", append(append([]string{}, kv...), "page", "1", "limit", "2", "sort", "desc")...)
+			})
+			get("/api/v1/balance", "addrs", a)
+			get("/api/v1/outputs", "addrs", a)
+			if !strings.Contains(a, ",") {
+				get("/api/v1/address_uxouts", "address", a)
+			}
+		}
+		for _, p := range []string{"/api/v1/blockchain/metadata", "/api/v1/blockchain/progress", "/api/v1/health", "/api/v1/coinSupply", "/api/v1/addresscount",
+			"/api/v1/transactions/num", "/api/v1/wallets"} {
+			get(p)
+		}
+		get("/api/v1/richlist", "include-distribution", "1")
+		for _, wl := range n.wallets {
+			get("/api/v1/wallet/balance", "id", wl)
+			get("/api/v1/wallet/transactions", "id", wl)
+			get("/api/v1/wallet/transactions", "id", wl, "verbose", "1")
+		}
+	}
+
+	// phase A: the head is the genesis block, one transaction in the pool
+	sweep("genesis-only head, split transaction in the pool")
+	if err := n.grow(6); err != nil {
+		return fmt.Errorf("growing the chain: %v", err)
+	}
+	if !n.alive() {
+		return fmt.Errorf("the node does not answer after the chain was grown")
+	}
+	// phase B: 7 blocks, one transaction in the pool
+	sweep("chain of 7 blocks")
+
 	// 1. the F6 witness first: a new transaction spending an output that a confirmed transaction spent
 	var verifyRoute route
 	for _, rt := range routes {
@@ -1202,14 +1424,6 @@ func run(args []string) error {
 			return 0, false
 		}
 		return len(m.Blocks), true
-	}
-	routeOf := func(p string) (route, bool) {
-		for _, rt := range routes {
-			if rt.Path == p {
-				return rt, true
-			}
-		}
-		return route{}, false
 	}
 	maxLBC := n.d.DaemonConfig().MaxLastBlocksCount
 	if rt, ok := routeOf("/api/v1/last_blocks"); ok {
@@ -1296,7 +1510,6 @@ func run(args []string) error {
 			break
 		}
 	}
-	_ = thorough
 
 	endAlive := n.alive()
 
